@@ -2,16 +2,16 @@
 from __future__ import annotations
 
 import ast
-from typing import Dict, List, Set
+from typing import Any, Dict, List, Set
 
 from ..engine.effects import typed_writes
 from ..engine.match import Spec, loop_doms, require_return, residual, same_function
 from ..engine.repo import AnalysisError
 from ..engine.report import Check
-from ..engine.terms import C, Term, show, subterms
+from ..engine.terms import C, Term, show, substitute, subterms
 from .c04 import PREV, Z, returned_state
 from .c05 import first_assignment
-from .common import rule_uto_apply, short
+from .common import is_counter_store, rule_uto_apply, short
 
 CS = "skepticoin.coinstate.CoinState"
 BAL = "skepticoin.balances."
@@ -126,7 +126,7 @@ def r03_3(ck: Check) -> None:
     PKB = BAL + "PublicKeyBalances."
     s = ck.summ(PKB + "__getitem__", 0)
     sp = Spec(s, ("self", "key"))
-    st = [e for e in s.events if e.kind == "store"]
+    st = [e for e in s.events if e.kind == "store" and not is_counter_store(e)]      # hit / miss tallies aside
     rets = s.returns()
     construct = "PublicKeyBalances[key]: cache[key] := public_key_balances_by_hash(key) when absent; returns cache[key]"
     if len(st) == 1 and st[0].term == sp.term("self.cache[key]") and st[0].value == sp.term("self.public_key_balances_by_hash(key)") \
@@ -198,6 +198,19 @@ def r03_8(ck: Check) -> None:
         ck.ok("R03.8", construct, "%d in-place mutations scanned repository-wide" % len(muts), "")
 
 
+def _default_via_none(t: Any, m: Term) -> Any:
+    """`(D if m.get(k, None) is None else m.get(k, None))` is `m.get(k, D)`: the ledger map holds balance records, never None"""
+    if not isinstance(t, tuple):
+        return t
+    t = tuple(_default_via_none(x, m) for x in t)
+    if t and t[0] == "ife" and len(t) == 4 and t[1][0] == "cmp" and t[1][1] in ("is", "isnot") and C(None) in (t[1][2], t[1][3]):
+        x = t[1][2] if t[1][3] == C(None) else t[1][3]
+        dflt, other = (t[2], t[3]) if t[1][1] == "is" else (t[3], t[2])
+        if other == x and x[0] == "call" and x[1] == ("a", m, "get") and not x[3] and (len(x[2]) == 1 or (len(x[2]) == 2 and x[2][1] == C(None))):
+            return ("call", x[1], (x[2][0], dflt), ())
+    return t
+
+
 def r03_4(ck: Check) -> None:
     q = BAL + "pkb_apply_transaction"
     s = ck.summ(q, 0)
@@ -219,6 +232,8 @@ def r03_4(ck: Check) -> None:
     okey = spo.term("o.public_key")
     want_credit = spo.term("PKBalance(m[o.public_key].value + o.value, m[o.public_key].output_references + [OutputReference(tx.hash(), k)])")
     cr = [e for e in s.events if e.kind == "store" and e.term == ("s", m, okey)]
+    for e in cr:
+        e.value = substitute(_default_via_none(e.value, m), {})      # (re-canonicalises sums)
     init = [e for e in cr if e.value == spo.term("PKBalance(0, [])")]
     main = [e for e in cr if e.value == want_credit]
     construct = "pkb_apply_transaction: credit the receiving key of every output (value + output value; reference (tx id, position) appended)"
